@@ -29,8 +29,14 @@ contract("_decode_data", source=M + "_decode_data", params={"data": B, "encoding
                   "implies(known_codec(chosen(data, encoding)) and decodable(data, chosen(data, encoding)), result == dec(data, chosen(data, encoding)))",
                   "implies(not (known_codec(chosen(data, encoding)) and decodable(data, chosen(data, encoding))), result == dec(data, 'latin1'))"],
          note="the declared (or default UTF-8) codec is used whenever it accepts the bytes; latin-1 only as the fallback; never raises")
-contract("file_data_to_unicode", source=M + "file_data_to_unicode", params={"data": B, "encoding": "Opt[Str]"}, returns="Tuple[Str,Str]", raises={},
+contract("file_data_to_unicode", source=M + "file_data_to_unicode", params={"data": B, "encoding": "Opt[Str]"}, defaults={"encoding": "None"}, returns="Tuple[Str,Str]", raises={},
          ensures=["result[1] == '\\n' or result[1] == '\\r\\n' or result[1] == '\\r'",
                   "not ('\\r' in result[0])",
-                  "implies(not ('\\r' in old_text(data, encoding)), result[0] == old_text(data, encoding) and result[1] == '\\n')"],
+                  "implies(not ('\\r' in old_text(data, encoding)), result[0] == old_text(data, encoding) and result[1] == '\\n')",
+                  # universal-newline normalisation: every CRLF, then every remaining CR, becomes LF
+                  "result[0] == repl(repl(old_text(data, encoding), '\\r\\n', '\\n'), '\\r', '\\n')",
+                  # detected convention: a lone CR wins, else CRLF if there is one, else LF
+                  "implies('\\r' in repl(old_text(data, encoding), '\\r\\n', '\\n'), result[1] == '\\r')",
+                  "implies(not ('\\r' in repl(old_text(data, encoding), '\\r\\n', '\\n')) and '\\r\\n' in old_text(data, encoding), result[1] == '\\r\\n')",
+                  "implies(not ('\\r' in repl(old_text(data, encoding), '\\r\\n', '\\n')) and not ('\\r\\n' in old_text(data, encoding)), result[1] == '\\n')"],
          note="the returned text uses LF only; a text without CR is returned unchanged with convention LF")
